@@ -288,6 +288,20 @@ func (c *tunnelChannel) NewStream(ctx context.Context, desc *grpc.StreamDesc, me
 }
 
 func (c *tunnelChannel) newStream(ctx context.Context, clientStreams, serverStreams bool, methodName string, opts ...grpc.CallOption) (*tunnelClientStream, error) {
+	// The negotiated revision and settings are written by the receive loop and
+	// published by closing awaitSettings. The channel may have been handed out
+	// before that (when the tunnel's context ended first), so observe the close
+	// before they are read below.
+	select {
+	case <-c.awaitSettings:
+	default:
+		select {
+		case <-c.awaitSettings:
+		case <-c.ctx.Done():
+			return nil, errors.New("channel is closed")
+		}
+	}
+
 	// this lock is only used here, and orders all calls to newStream sequentially
 	// to make sure streams are created (and NewStream message sent) with IDs in
 	// monotonic order.
